@@ -7,6 +7,10 @@ From DV Require Import Model.Time Model.Node Proofs.TimeProofs Proofs.NodeProofs
 Import ListNotations.
 Open Scope Z_scope.
 
+(* (round, clock) of every partial released along a run *)
+Definition proj_emits_all (os : list (list out)) : list (Z * Z) :=
+  flat_map (fun x => match x with OEmit r _ _ n => [(r, n)] | _ => [] end) (concat os).
+
 Section C04.
   Variable C : cfg.
   Variable idx_of : Z -> Z.
@@ -23,25 +27,30 @@ Section C04.
     process_partial C idx_of vpart recov vrec s r p sg = (s, [OReject]).
   Proof. exact (future_partial_rejected C idx_of vpart recov vrec). Qed.
 
-  (* Every partial the node releases -- on a tick, by a woken catch-up sleeper, after a restart,
-     across a group transition -- is for a round that is at most the current round of the node's
-     own clock at the moment of release, for EVERY event list in which the clock moves forward,
-     ticks carry a round that is not in the clock's future, and the stored head is not ahead of
-     the node's own clock when a tick is handled (carve-out: see C04_full_refuted below). *)
-  Theorem C04_emissions_not_early_partial :
-    dom_p (c_period C) -> dom_g (c_genesis C) ->
+  (* Every partial the node releases -- on a tick of ANY round (also a stale one, consumed after a
+     stall longer than a period), by a woken catch-up sleeper, after a restart, across a group
+     transition, with a chain behind, level with or AHEAD of its clock -- is for a round that is at
+     most the current round of the node's own clock at the moment of release: for EVERY state and
+     EVERY event list, without any premise.  (Before the fix: commit recorded in
+     known_findings.txt this needed "the stored head is not ahead of the own clock when a tick is
+     handled and ticks are not stale", and the unconditional statement was refuted; the witnesses
+     are kept below as regression examples.) *)
+  Theorem C04_emissions_never_early :
     forall es s s' os,
-      inv4 C s -> run_adm C idx_of vpart recov vrec own_psig s es ->
       run C idx_of vpart recov vrec own_psig s es = (s', os) ->
       forall r p sg n, In (OEmit r p sg n) (all_outs os) ->
         r <= current_round n (c_period C) (c_genesis C).
-  Proof.
-    intros Hp Hg es s s' os Hi Ha Hr r p sg n Hin.
-    exact (run_emits_timely C idx_of vpart recov vrec own_psig Hp Hg es s s' os Hi Ha Hr r p sg n Hin).
-  Qed.
+  Proof. exact (run_emits_timely C idx_of vpart recov vrec own_psig). Qed.
+
+  (* one step, any state *)
+  Theorem C04_step_never_early : forall s e s' o,
+    step C idx_of vpart recov vrec own_psig s e = (s', o) ->
+    forall r p sg n, In (OEmit r p sg n) o -> r <= current_round n (c_period C) (c_genesis C).
+  Proof. exact (step_emits_timely C idx_of vpart recov vrec own_psig). Qed.
 End C04.
 Print Assumptions C04_accept.
-Print Assumptions C04_emissions_not_early_partial.
+Print Assumptions C04_emissions_never_early.
+Print Assumptions C04_step_never_early.
 
 (* a round at or below the clock's current round has a scheduled time at or before the clock *)
 Theorem C04_round_le_current_is_timely : forall now p g r,
@@ -88,55 +97,42 @@ Proof.
     + intros i [<-|[<-|[]]]; simpl; auto.
 Qed.
 
-(* Without ANY assumption on the other members the first sentence of the property does not hold
-   of the faithful model: if a threshold of OTHER members sign round cur+1 while the node's own
-   clock is still in round cur (they are corrupted or a period fast -- which is outside the
-   threat model of the property's second sentence, since such a coalition can produce the
-   future round by itself), the node accepts those partials (tolerance of one round), stores
-   round cur+1, and a tick of round cur that is handled after that (a goroutine interleaving, no
-   clock movement needed) signs head+1 = cur+2.  The theorem above carves this out through the
-   premise "head not ahead of the own clock when a tick is handled"; the system-level theorem
-   (Props/C04 net part) shows the premise holds when fewer than a threshold of members are
-   fast or corrupted.  This is recorded as an observation, not as a defect of drand. *)
+(* Regression witnesses of the two ways the first sentence of the property used to fail on the
+   faithful model of the unrepaired code (both replayed on the real Handler by the node engine:
+   the fast-peer scenario and the stall scenario):
+   (a) a threshold of OTHER members sign round cur+1 while the node's clock is still in round cur
+       (accepted: one round of tolerance), the node stores cur+1, and the tick of round cur that is
+       handled after that signed head+1 = cur+2;
+   (b) the process stalls for more than a period: its ticker keeps one pending tick stamped with
+       the time it was generated; when the process resumes the aggregator first stores the rounds
+       whose partials the peers sent in time, then the run loop consumes the stale tick and signed
+       head+1, a round whose time had not come.
+   With the guard in broadcastNextPartial (sign only a round <= the current round of the own
+   clock) both runs release nothing early. *)
 Definition w_idx (sg : Z) := sg / 100.              (* partial id = 100*index + round *)
 Definition w_vpart (_ r p sg : Z) := (sg mod 100 =? r).
 Definition w_recov (_ r p : Z) (sigs : list Z) (t : Z) := if t <=? Z.of_nat (length sigs) then Some r else None.
 Definition wit_cfg := mkCfg true 4 1000 2 partial_cache_store_limit.
 Definition wit_events := [EPart 1 0 101; EPart 1 0 201; EPart 2 1 102; EPart 2 1 202; ETick 1 None].
-Definition wit_run :=
+Definition wit_run es :=
   run wit_cfg w_idx w_vpart w_recov (fun r p s => s =? r) (fun _ r _ => r)
-      (init 1000 0 (mkG 0 2 [0; 1; 2] 0)) wit_events.
+      (init 1000 0 (mkG 0 2 [0; 1; 2] 0)) es.
+(* (b): ticks 1 at 1000; stall; rounds 2 (1004) and 3 (1008) arrive from the peers; stale tick 2 *)
+Definition wit_stall := [ETick 1 None; EPart 1 0 101; EClock 8; EPart 2 1 102; EPart 2 1 202;
+                         EPart 3 2 103; EPart 3 2 203; ETick 2 None].
 
-Definition C04_unconditional : Prop :=
-  forall C idx_of vpart recov vrec own_psig s es s' os,
-    run C idx_of vpart recov vrec own_psig s es = (s', os) ->
-    forall r p sg n, In (OEmit r p sg n) (all_outs os) ->
-      r <= current_round n (c_period C) (c_genesis C).
+Example C04_fast_peers_witness_repaired :
+  proj_emits_all (snd (wit_run wit_events)) = [] /\ b_round (head (fst (wit_run wit_events))) = 2.
+Proof. vm_compute. split; reflexivity. Qed.
+Example C04_stale_tick_witness_repaired :
+  proj_emits_all (snd (wit_run wit_stall)) = [(1, 1000)] /\ b_round (head (fst (wit_run wit_stall))) = 3.
+Proof. vm_compute. split; reflexivity. Qed.
 
-Theorem C04_unconditional_refuted : ~ C04_unconditional.
-Proof.
-  intros H.
-  specialize (H wit_cfg w_idx w_vpart w_recov (fun r p s => s =? r) (fun _ r _ => r)
-                (init 1000 0 (mkG 0 2 [0; 1; 2] 0)) wit_events
-                (fst wit_run) (snd wit_run) ltac:(vm_compute; reflexivity)
-                3 2 3 1000 ltac:(vm_compute; auto)).
-  vm_compute in H. apply H. reflexivity.
-Qed.
-Print Assumptions C04_unconditional_refuted.
-
-(* non-vacuity of the premises of the partial theorem: the initial state satisfies inv4 and a
-   normal tick at genesis is admissible *)
+(* non-vacuity: a normal tick at genesis releases the partial of round 1 *)
 Example C04_nonvacuous :
-  inv4 wit_cfg (init 1000 0 (mkG 0 2 [0; 1; 2] 0)) /\
-  adm wit_cfg (init 1000 0 (mkG 0 2 [0; 1; 2] 0)) (ETick 1 None) /\
   snd (step wit_cfg w_idx w_vpart w_recov (fun r p s => s =? r) (fun _ r _ => 500 + r)
             (init 1000 0 (mkG 0 2 [0; 1; 2] 0)) (ETick 1 None)) = [OEmit 1 0 501 1000].
-Proof.
-  split; [|split].
-  - unfold inv4, now_ok, now_dom, dom_t, cr; cbn. split; [right; lia|]. split; [vm_compute; discriminate|constructor].
-  - unfold adm, cr; cbn. split; [vm_compute; discriminate|]. left. vm_compute. reflexivity.
-  - vm_compute. reflexivity.
-Qed.
+Proof. vm_compute. reflexivity. Qed.
 
 (* ---------- system level, over the composed model Model/Net.v ----------
    Several honest nodes, each running the node-local [step] that the correspondence compares with
@@ -146,13 +142,12 @@ Qed.
    unforgeability is the admissibility of its events ([gadm]): a valid partial of an index outside
    F can only be replayed, a verifying beacon can be served or assembled only if one of that round
    exists or a threshold of valid partials for it is on the wire.  Honest clocks are accurate
-   (real time advances them together) and a tick carries the current round of the clock.  Resharing is
+   (real time advances them together); a tick may carry ANY round (stale ticks included).  Resharing is
    included: a node may be handed a new group (ETransition) of another sharing, with its own
    threshold and its own set of adversarial indices, and switches when the target round is stored.
    In EVERY reachable state: no beacon of a future round exists anywhere, not even in the
    adversary's hands -- the next round's randomness is unknown before its time; no honest chain
-   holds a future round; no valid partial of an index outside F is for a future round.  The
-   premise "head not ahead of the own clock" of the node-local theorem is derived here, not assumed. *)
+   holds a future round; no valid partial of an index outside F is for a future round. *)
 From DV Require Import Model.Net Proofs.NetProofs.
 Section C04_system.
   Variable C : cfg.
@@ -189,7 +184,7 @@ Section C04_system.
   Theorem C04_system_init : forall now gs, now_dom (c_genesis C) now ->
     (forall g, In g gs -> okgrp thr_of g) ->
     sys_inv C idx_of vpart vrec thr_of F_of gen (init_sys gen now gs).
-  Proof. exact (init_inv C idx_of vpart vrec Hp Hg thr_of F_of gen). Qed.
+  Proof. exact (init_inv C idx_of vpart vrec thr_of F_of gen). Qed.
 End C04_system.
 Print Assumptions C04_system_no_future_round.
 Print Assumptions C04_system_init.
